@@ -89,8 +89,10 @@ EXPORT errno_t _strrchr_s_chk(const char *restrict dest, rsize_t dmax,
     if (destbos == BOS_UNKNOWN) {
         CHK_DMAX_MAX("strrchr_s", RSIZE_MAX_STR)
         BND_CHK_PTR_BOUNDS(dest, dmax);
-    } else if (unlikely(dmax > destbos)) {
+    } else {
         CHK_DEST_OVR("strrchr_s", destbos)
+        /* strnlen_s below rejects such a dmax on its own, with another code */
+        CHK_DMAX_MAX("strrchr_s", RSIZE_MAX_STR)
     }
     if (unlikely(ch > 255)) {
         invoke_safe_str_constraint_handler("strrchr_s: ch exceeds max",
